@@ -43,8 +43,11 @@ type World struct {
 	trNo     int
 	dead     atomic.Bool // a lifecycle call is stuck: nothing more can be asked of this TaskMaster
 	snaps    *snapStore
-	notDying int // dying tasks that were still alive after 60 feeding writes
-	deaths   int // dying tasks whose source node had failed (fork edge aborted) by the time they were stopped
+	total    atomic.Int64 // points accepted by this TaskMaster so far (writes, acknowledged HTTP writes, fences)
+	gmu      sync.Mutex
+	gates    map[string]chan struct{} // sink -> closed gate: the log node of that sink blocks after recording an arrival
+	notDying int                      // dying tasks that were still alive after 60 feeding writes
+	deaths   int                      // dying tasks whose source node had failed (fork edge aborted) by the time they were stopped
 }
 
 // dieHTTPD is the TaskMaster's HTTP service: it refuses the route of an httpOut
@@ -130,7 +133,8 @@ func NewWorld() (*World, error) {
 		return nil, err
 	}
 	env.TM.DefaultRetentionPolicy = defaultRP
-	w := &World{Env: env, snaps: &snapStore{fail: map[string]bool{}}}
+	w := &World{Env: env, snaps: &snapStore{fail: map[string]bool{}}, gates: map[string]chan struct{}{}}
+	env.Diag.OnItem = w.onItem
 	env.TM.TaskStore = w.snaps
 	env.TM.HTTPDService = dieHTTPD{env.HTTPD}
 	if _, err := env.StartTask("fence", "stream\n    |from()\n    |log()\n        .prefix('fence')\n", kapacitor.StreamTask, []kapacitor.DBRP{fenceDBRP}); err != nil {
@@ -156,6 +160,7 @@ func (w *World) Sync() bool {
 	if err := w.Env.Write(fenceDBRP.Database, fenceDBRP.RetentionPolicy, p); err != nil {
 		rt.Fatalf("fence write: %v", err)
 	}
+	w.total.Add(1)
 	for waited := time.Duration(0); !w.Env.Diag.WaitCount("fence", w.fence, time.Second); waited += time.Second {
 		if w.dead.Load() {
 			return false
@@ -165,6 +170,53 @@ func (w *World) Sync() bool {
 		}
 	}
 	return true
+}
+
+// SyncIngress is Sync without putting a point of another series on the write
+// stream: it waits until the published "ingress" statistics of this TaskMaster
+// (incremented at the end of forkPoint) have counted every point accepted so far.
+func (w *World) SyncIngress() bool {
+	want := w.total.Load()
+	pause := 20 * time.Microsecond
+	for waited := time.Duration(0); w.Env.Ingress() < want; waited += pause {
+		if w.dead.Load() {
+			return false
+		}
+		if waited >= waitDeadline {
+			rt.Fatalf("ingress statistics count %d of %d points after %v (forking goroutine stuck?)", w.Env.Ingress(), want, waitDeadline)
+		}
+		time.Sleep(pause)
+		if pause < 2*time.Millisecond {
+			pause *= 2
+		}
+	}
+	return true
+}
+
+// onItem runs in the goroutine of a log node after the arrival has been recorded:
+// a closed gate for that sink blocks the node, which backs the task up.
+func (w *World) onItem(it rt.SinkItem) {
+	w.gmu.Lock()
+	ch := w.gates[it.Sink]
+	w.gmu.Unlock()
+	if ch != nil {
+		<-ch
+	}
+}
+
+func (w *World) closeGate(sink string) {
+	w.gmu.Lock()
+	w.gates[sink] = make(chan struct{})
+	w.gmu.Unlock()
+}
+
+func (w *World) openGate(sink string) {
+	w.gmu.Lock()
+	if ch := w.gates[sink]; ch != nil {
+		close(ch)
+		delete(w.gates, sink)
+	}
+	w.gmu.Unlock()
 }
 
 // httpDiag satisfies httpd.Diagnostic.
